@@ -29,6 +29,11 @@ def witness_pairs():
          ['task', 'ptasks', 'Exp', [['p', ['task', 'ptasks', 'Leaf', [['x', ['int', 1]]]]]]]),
         ('enum', ['task', 'ptasks', 'Exp', [['p', ['dict', [[['k', '_is_enum'], ['bool', True]], [['k', '__class__'], ['str', 'ptasks.Color']], [['k', 'name'], ['str', 'RED']]]]]]],
          ['task', 'ptasks', 'Exp', [['p', ['enum', 'ptasks', 'Color', 'RED']]]]),
+        # known finding F07c: the str of two surrogate code points and the astral character they spell
+        ('surrogates', ['task', 'ptasks', 'Exp', [['p', ['strcp', [0xD800, 0xDC00]]]]],
+         ['task', 'ptasks', 'Exp', [['p', ['strcp', [0x10000]]]]]),
+        ('surrogates_nested', ['task', 'ptasks', 'Exp', [['p', ['dict', [[['k', 'name'], ['strcp', [0x61, 0xD83D, 0xDE00]]]]]]]],
+         ['task', 'ptasks', 'Exp', [['p', ['dict', [[['k', 'name'], ['strcp', [0x61, 0x1F600]]]]]]]]),
     ]
 
 
@@ -39,6 +44,9 @@ def collision_violation(sa, sb, ta, tb, why):
     if known:
         v['known_match'] = pr.KNOWN_F07
         v['what'] = 'dict parameter with a truthy _is_task/_is_enum key: ' + v['what']
+    elif sa != sb and pg.fold_surrogates(sa) == pg.fold_surrogates(sb):
+        v['known_match'] = pr.KNOWN_F07C
+        v['what'] = 'str parameter that spells an astral character as two surrogate code points: ' + v['what']
     return v
 
 
